@@ -7,6 +7,7 @@
 #pragma once
 #include <cstdint>
 #include <cstdio>
+#include <initializer_list>
 #include <map>
 #include <string>
 #include <vector>
@@ -51,6 +52,9 @@ struct Tracked {
 
     Tracked() : magic(LIVE), val(0) { reg().add(0, +1); }
     Tracked(long v) : magic(LIVE), val(v) { reg().add(v, +1); }           // NOLINT: implicit on purpose
+    // A container builds its elements as T(args...): with braces, T{args...} would pick THIS constructor whenever the arguments
+    // form a list of longs (what happens to std::vector<int>{3, 7}), and the element would not be T(args...) any more.
+    Tracked(std::initializer_list<long> l) : magic(LIVE), val(l.size() ? *l.begin() : 0) { reg().fail("BRACE_INITIALISED"); reg().add(val, +1); }
     // the source is inspected BEFORE any member of the new object is written: the source may be the very storage the new
     // object is constructed in (placement-new from an element that was just destroyed there)
     Tracked(const Tracked &o) { long v = o.checkedVal(); magic = LIVE; val = v; reg().add(val, +1); }
